@@ -1074,7 +1074,6 @@ func (a *Agent) PortFwdClose(SocketID int) {
 
 				/* close our connection */
 				a.PortFwds[i].Conn.Close()
-				a.PortFwds[i].Conn = nil
 
 			}
 
@@ -1182,7 +1181,6 @@ func (a *Agent) SocksClientClose(SocketID int32) bool {
 
 				/* close our connection */
 				a.SocksCli[i].Conn.Close()
-				a.SocksCli[i].Conn = nil
 
 			}
 
